@@ -575,7 +575,7 @@ def run(ctx) -> None:
     per = 40 if quick else 400
     ctx.exhaustive("stateful-histories", MOD, "machine_shard", [(derive_seed(ctx.seed, ID, "machine", i), per) for i in range(16)],
                    f"16 x {per} Hypothesis state-machine runs of up to 40 steps (seeded)", kind="hypothesis-stateful")
-    ctx.random("directory-and-exclusion-order", MOD, "order_strategy", "check_order_case", 400 if quick else 8000)
+    ctx.random("directory-and-exclusion-order", MOD, "order_strategy", "check_order_case", 1000 if quick else 12000)
     hash_seed_part(ctx, 240 if quick else 2400)
 
 
